@@ -394,7 +394,11 @@ func cmdCheck(args []string) {
 				}
 				continue
 			}
-			if f := matchFinding(findings, id, o.Name); f != nil {
+			f := matchFinding(findings, id, o.Name)
+			if f == nil {
+				f = matchFinding(findings, id, o.ShapeName)
+			}
+			if f != nil {
 				known++
 				okct++
 				if !seenKF[f.Text] {
